@@ -8,8 +8,11 @@
 // CQScheduler glue + real DuckDB + real ArrowBuffer over a LocalBackend on tmpfs, with SQLite metadata on
 // tmpfs and the clock of continuous_query.go virtualised (shim/vclock, frozen between tick events).
 //
-// Most passes append a fixed probe (tick(I), sched) to every enumerated history, so that what the NEXT
-// scheduled execution does after the enumerated events is always observed.
+// Passes (see passes()): quick = core alphabet to length 3, one request shape + two context events, a
+// six-event alphabet at length 4; thorough = the whole 28-event alphabet to length 3, the core alphabet to
+// length 4; both with a second, whole-second clock. All passes but the length-4 quick one append a fixed probe
+// (tick(I), sched) to every enumerated history, so that what the NEXT scheduled execution does after the
+// enumerated events is always observed; the oracle is evaluated before and after the probe.
 //
 // Oracle (the property, nothing more). The in-band chain = completed scheduled executions and completed
 // manual executions WITHOUT explicit bounds (the request that does what a scheduler tick does):
@@ -630,7 +633,13 @@ func (w *worker) runSeq1(seq []int, frac time.Duration, checkAt int) *outcome {
 					}
 				}
 				if at.Before(cur.s) {
-					o.add("gap", fmt.Sprintf("scheduled window [%s,%s) (event %d) starts after the previous in-band window ended at %s (event %d); [%s,%s) is summarised by no execution", f3(cur.s), f3(cur.e), cur.Ev, f3(prev.e), prev.Ev, f3(at), f3(cur.s)))
+					upto := cur.s // the first slice nobody summarised ends where the next completed window in between starts
+					for _, f := range fill {
+						if f.s.After(at) && f.s.Before(upto) {
+							upto = f.s
+						}
+					}
+					o.add("gap", fmt.Sprintf("scheduled window [%s,%s) (event %d) starts after the previous in-band window ended at %s (event %d); [%s,%s) is summarised by no execution", f3(cur.s), f3(cur.e), cur.Ev, f3(prev.e), prev.Ev, f3(at), f3(upto)))
 				}
 			}
 		}
@@ -643,24 +652,33 @@ func (w *worker) runSeq1(seq []int, frac time.Duration, checkAt int) *outcome {
 			gotN[r.Key()]++
 		}
 		var want []hx.Row
+		// first the rows that are demanded; they consume their copies in the destination
 		for _, x := range o.windows {
-			if x.Status != "completed" {
+			if x.Status != "completed" || seq[x.Ev] == eSchedWrite {
 				continue
 			}
 			rows := expectRows(w.rows, x.Def, x.s, x.e)
-			if seq[x.Ev] == eSchedWrite {
-				// the execution handed its rows to the asynchronous ingest buffer and completed; that the later
-				// storage write of buffered rows failed is not this property's subject (durability of buffered
-				// rows is C07's): such rows are neither demanded nor forbidden
-				for _, r := range rows {
-					if gotN[r.Key()] > 0 {
-						gotN[r.Key()]--
-						want = append(want, r)
-					}
+			for _, r := range rows {
+				if gotN[r.Key()] > 0 {
+					gotN[r.Key()]--
 				}
-				continue
 			}
 			want = append(want, rows...)
+		}
+		for _, x := range o.windows {
+			if x.Status != "completed" || seq[x.Ev] != eSchedWrite {
+				continue
+			}
+			// the execution handed its rows to the asynchronous ingest buffer and completed; that the later
+			// storage write of buffered rows failed is not this property's subject (durability of buffered
+			// rows is C07's): such rows are neither demanded nor forbidden — a copy that is left over in the
+			// destination after the demanded rows took theirs is accepted
+			for _, r := range expectRows(w.rows, x.Def, x.s, x.e) {
+				if gotN[r.Key()] > 0 {
+					gotN[r.Key()]--
+					want = append(want, r)
+				}
+			}
 		}
 		classifyRows(o, want, got)
 	}
@@ -947,9 +965,10 @@ func passes(quick bool) []pass {
 		// the longer histories of the quick tier: time passing, the in-band executions, a failing execution, the
 		// old backfill, a restart (every history of the core alphabet up to this length is in thorough)
 		deep := []int{eTick, eSched, eSchedRead, eManual, eManualRange, eRestart}
+		qctx := []int{eTick, eSched, eManual, eRestart, eUpdate} // thorough adds tick(I/2) and, at .250 s, everything else
 		return []pass{
 			mk("core@.250s", q250, cut(3), "every history of length 1..%d over the core alphabet "+evList(core), genAll(core, cut(3))),
-			mk("shapes@.250s", q250, cut(3), "every history of length 1..%d with exactly one of the manual request shapes "+evList(shapesOnly)+" and the other events from "+evList(ctx), genOne(shapesOnly, ctx, cut(3))),
+			mk("shapes@.250s", q250, cut(3), "every history of length 1..%d with exactly one of the manual request shapes "+evList(shapesOnly)+" and the other events from "+evList(qctx), genOne(shapesOnly, qctx, cut(3))),
 			mk("core@.000s", 0, cut(2), "every history of length 1..%d over the core alphabet", genAll(core, cut(2))),
 			mk("shapes@.000s", 0, cut(3), "every history of length 1..%d with exactly one of the manual request shapes and the other events from "+evList(small), genOne(shapesOnly, small, cut(3))),
 			{name: "deep@.250s", frac: q250, maxLen: cut(4), what: "every history of length %d over " + evList(deep), gen: genLen(deep, cut(4), cut(4))},
@@ -959,7 +978,7 @@ func passes(quick bool) []pass {
 		mk("all@.250s", q250, cut(3), "every history of length 1..%d over the whole alphabet (core + all manual request shapes)", genAll(all, cut(3))),
 		mk("core@.250s", q250, cut(4), "every history of length 1..%d over the core alphabet "+evList(core), genAll(core, cut(4))),
 		mk("core@.000s", 0, cut(3), "every history of length 1..%d over the core alphabet", genAll(core, cut(3))),
-		mk("shapes@.000s", 0, cut(3), "every history of length 1..%d with exactly one of the manual request shapes "+evList(shapesOnly)+" and the other events from the core alphabet", genOne(shapesOnly, core, cut(3))),
+		mk("shapes@.000s", 0, cut(3), "every history of length 1..%d with exactly one of the manual request shapes "+evList(shapesOnly)+" and the other events from "+evList(ctx), genOne(shapesOnly, ctx, cut(3))),
 	}
 }
 
@@ -1240,13 +1259,16 @@ func main() {
 	run.Coverage["manual_request_grid"] = "explicit start_time/end_time of a manual execution are taken, at the moment of the request, from {preL = L-30s, L, mid = L + half of (now-L) rounded down to 10 s, now truncated to the second} with L = last_processed_time (when NULL: now-1h, the default window start); manual(range) is the fixed old range [base-90m, base-75m)"
 	run.Coverage["manual_executions_with_explicit_bounds_logged"] = counters["manual_executions_with_explicit_bounds_logged"]
 	var pd []string
+	secs := map[string]int64{}
 	for _, p := range ps {
 		pr := ""
 		if p.probe {
 			pr = ", each followed by the probe " + evList(probeEvents)
 		}
-		pd = append(pd, fmt.Sprintf("%s: "+p.what+"%s (%d of %d run, %d s summed over the shards)", p.name, p.maxLen, pr, counters["histories@"+p.name], wantBy[p.name], counters["shard_ms@"+p.name]/1000))
+		pd = append(pd, fmt.Sprintf("%s: "+p.what+"%s (%d of %d run)", p.name, p.maxLen, pr, counters["histories@"+p.name], wantBy[p.name]))
+		secs[p.name] = counters["shard_ms@"+p.name] / 1000
 	}
+	run.Coverage["pass_seconds_summed_over_shards"] = secs
 	run.Coverage["passes"] = pd
 	run.Coverage["executions_completed"] = counters["executions_completed"]
 	run.Coverage["executions_failed_or_rejected_logged"] = counters["executions_failed"]
